@@ -475,6 +475,13 @@ def classify_compile_failure(exp):
     return None
 
 
+def outcome_detail(o):
+    """what came back for a call, for the report of an outcome the model has no term for"""
+    return json.dumps({"ok": o.get("ok"), "stage": o.get("stage"), "error": o.get("error"),
+                       "server_calls": [(c["path"], len(c["requests"])) for c in o.get("calls") or []],
+                       "result": (o.get("result") or {}).get("kind") if isinstance(o.get("result"), dict) else o.get("result")})[:400]
+
+
 class ApiRun:
     """Generation + extraction + driving of one API; fills checks (T1/T2 expressions) and reports oracle violations."""
 
@@ -662,7 +669,7 @@ class ApiRun:
         try:
             out = U.drive(root, vm, calls)
         except Exception as e:  # noqa
-            ctx.oblige(f"T2 {self.tag}: driver ran", False, repr(e)[-800:], "T2")
+            ctx.oblige(f"HARNESS ERROR (driver of {self.tag}, retried once; says nothing about /repo)", False, repr(e)[-800:], "build")
             return
         finally:
             gen.rm(root)
@@ -786,7 +793,7 @@ class ApiRun:
                                     f"match {self.blk_name(k)} {cv} with Some b => outcome_eqb_on {coq.slist(mkeys_x)} {coq.slist(all_prefixes(mkeys_x))} "
                                     f"(exec b {ra} {kwt}) {obs_term} | None => false end"))
             else:
-                ctx.oblige(f"T2 {self.tag}.{m.name} {variant} {mode}: outcome is one the model knows", False, json.dumps(o.get("error"))[:300], "T2")
+                ctx.oblige(f"T2 {self.tag}.{m.name} {variant} {mode}: outcome is one the model knows", False, outcome_detail(o), "T2")
             # ---- the property's own sentences
             known = "flatten.nonprimitive_leaf_in_pb2_submessage" if pb2_leaf else None
             if mode == "mixed":
